@@ -291,7 +291,9 @@ def line_verdict(fields, version):
         if rt == "H":
             pass
         elif rt == "S":
-            if not RE_ID2.match(pos[0]):
+            # `<opt_id> <- <id> | *` only says something if `*` alone is not an <id>: where an identifier is
+            # required the placeholder is not one (a segment named `*` could be neither found nor referred to)
+            if not RE_ID2.match(pos[0]) or pos[0] == "*":
                 V.no("id2")
             int2(V, pos[1], "slen")
             if re.match(r"-[0-9]+\Z", pos[1]):
@@ -306,7 +308,7 @@ def line_verdict(fields, version):
                     V.no("ref2")
                 P = pos[3:7]; al = pos[7]
             else:
-                if not RE_ID2.match(pos[0]):
+                if not RE_ID2.match(pos[0]) or pos[0] == "*":
                     V.no("id2")
                 if not RE_REF2.match(pos[1]):
                     V.no("ref2")
